@@ -17,7 +17,7 @@ import c03rig
 from vlib import COQ, VERIF
 
 PROPERTY = "C03"
-CONSTS = ["demod"]
+CONSTS = ["demod", "taps", "dsp"]
 COQ_TARGETS = ["Properties_C03.vo", "Extract_C03.vo"]
 PROPERTIES_FILE = "Properties_C03.v"
 LEVEL = "other"
